@@ -227,6 +227,7 @@ static void table_scenario_(int oi, int mode, int ke, int kec, int tiny)
     {
         if (raw[i] != 0xC3 || raw[64 + A_PID_FUZZY_BFUZZ(3) + i] != 0xC3) { canary = 0; }
     }
+    if (a_pid_fuzzy_bfuzz(&ctx) != (void *)(raw + 64)) { canary = 0; } /* the getter reports the buffer that was set */
     fprintf(f, "],\"canary\":%d,\"lim_codes\":[", canary);
     put_ordered(f, -10.0);
     fputc(',', f);
